@@ -30,7 +30,7 @@ def gen_plan(rng, tier, index):
     dim = rng.pick([nc - 1, nc - 1, nc, max(1, nc - 2), 1, 2]) if nc > 2 else 1
     dim = max(1, dim)
     pts = [[[rng.randint(-6, 6) / 2.0 for _ in range(dim)] for _ in range(nc)] for _ in range(2)]
-    kind = rng.pick(['fixed', 'weighted'])
+    kind = rng.pick(['fixed', 'weighted', 'fixed', 'weighted', 'fixed_multi'])
     theta = [rng.pick([0.5, 1.0, 2.0, 3.0]), rng.pick([0.0, 0.5, 1.0])] if kind == 'weighted' else None
     n_part = rng.randint(1, 4)
     design = rng.pick(['make_design', 'shuffled', 'relabelled', 'matrix', 'shuffled_relabelled', 'matrix_mixed'])
@@ -168,6 +168,11 @@ def _model(plan):
     if plan['kind'] == 'fixed':
         m = ModelFixed('simfixed', RDMs(D[0][iu].reshape(1, -1)))
         pred = D[0]
+        theta = None
+    elif plan['kind'] == 'fixed_multi':
+        # a fixed model built from a stack of RDMs (a group average): its prediction is the mean of the stack
+        m = ModelFixed('simfixedmulti', RDMs(np.array([D[0][iu], D[1][iu]])))
+        pred = (D[0] + D[1]) / 2.0
         theta = None
     else:
         m = ModelWeighted('simweighted', RDMs(np.array([D[0][iu], D[1][iu]])))
